@@ -50,7 +50,12 @@ def assign_engines_bounded(spec, tier, seed):
                         continue
                     n += 1
                     o = copy.deepcopy(occ)
-                    out = assign_engines(o, names, pin)
+                    try:
+                        out = assign_engines(o, names, pin)
+                    except Exception as e:  # an exception of the code under test under its precondition is a violation, not a checker crash
+                        if bad is None:
+                            bad = {"engine_occ": occ, "names": names, "pin": pin, "raised": repr(e)}
+                        continue
                     ok = set(out) == set(names)
                     for t in names:
                         ok = ok and t in out and o[t][out[t]] == pin and occ[t][out[t]] in (-1, pin)
